@@ -418,6 +418,8 @@ def header_derivation(ck, rule, exact=False):
         # identity arguments
         for k in ("queryId", "referenceId", "queryLength", "referenceLength", "reverseStrand"):
             if k in args:
+                if k in ("queryId", "referenceId") and args[k] == T.mk_call("int", [V(k)]):
+                    continue              # int() of a molecule id names the same molecule
                 ck.judge(args[k] == V(k), rule, f"AlignmentResultRow.create:{k}", where(fn, pa.node),
                          f"{k} is passed through unchanged", found=T.show(args[k])[:100], required=k)
     if n_derived == 0:
